@@ -8,7 +8,7 @@ concretely; original and result run symbolically side by side (harness/tv.py) fo
 """
 PROPERTY = 'C08'
 LEVEL = 'translation_validation'
-BUDGET_S = {'quick': 900, 'thorough': 7200}
+BUDGET_S = {'quick': 3600, 'thorough': 14400}
 
 from . import tv, corpus
 
